@@ -336,7 +336,7 @@ func scenarioSincePlusOne(c *Ctx) (*hist, bool, error) {
 
 var streamScenarios = map[string][]scenario{
 	"C25": {{"F7", scenarioF7Stream}},
-	"C24": {{"F7", scenarioF7Backup}, {"GC", scenarioBackupGC}, {"since", scenarioSincePlusOne}},
+	"C24": {{"F7", scenarioF7Backup}, {"F21", scenarioBackupGC}, {"since", scenarioSincePlusOne}},
 }
 
 func runStreamScenarios(c *Ctx) error {
